@@ -76,6 +76,26 @@ pub fn run(ctx: &'static Ctx) {
         d.domain = J::Obj(members.iter().map(|(n, t)| (n.clone(), value_for(t))).collect());
         check_doc(ctx, P, "member-names-with-encoding-syntax", i, &format!("domain-member-name:{label}"), &d);
     });
+    // the primary type's graph REFERENCES EIP712Domain (as a member, as an array, through another struct, as the primary type
+    // itself): the domain type is a type like any other there - and must still be one of the 31 (a checker that visits every
+    // type once must not skip the domain rules because it has "seen" the name already)
+    let bad_types: Vec<(&str, Vec<(&str, &str)>)> = vec![("reordered", vec![("chainId", "uint256"), ("name", "string")]), ("unknown-field", vec![("name", "string"), ("description", "string")]), ("wrong-type", vec![("name", "string"), ("chainId", "uint64")]), ("repeated", vec![("name", "string"), ("name", "string")]), ("empty", vec![]), ("well-formed", vec![("name", "string"), ("chainId", "uint256")])];
+    let graphs = ["member", "array-member", "through-another-struct", "fixed-array-member", "primary-type-is-the-domain-type"];
+    ctx.sweep("domain-type-referenced-by-the-message", "6 domain types (5 ill-formed, 1 well-formed) x 5 ways the primary type's graph reaches EIP712Domain (member, dynamic array, fixed array, through another struct, primary type = EIP712Domain): ill-formed ones refused, the well-formed one hashed per EIP-712", (bad_types.len() * graphs.len()) as u64, |i| {
+        let (tname, members) = &bad_types[i as usize / graphs.len()]; let g = graphs[i as usize % graphs.len()];
+        let dm = sv(members); let mut seen = std::collections::HashSet::new();
+        let dv = J::Obj(dm.iter().filter(|(n, _)| seen.insert(n.clone())).map(|(n, t)| (n.clone(), value_for(t))).collect());
+        let (mut types, primary, message): (Vec<(String, Vec<(String, String)>)>, &str, J) = match g {
+            "member" => (vec![("Msg".into(), sv(&[("d", "EIP712Domain"), ("x", "uint256")]))], "Msg", J::obj(vec![("d", dv.clone()), ("x", J::n("7"))])),
+            "array-member" => (vec![("Msg".into(), sv(&[("ds", "EIP712Domain[]")]))], "Msg", J::obj(vec![("ds", J::Arr(vec![dv.clone(), dv.clone()]))])),
+            "fixed-array-member" => (vec![("Msg".into(), sv(&[("ds", "EIP712Domain[1]")]))], "Msg", J::obj(vec![("ds", J::Arr(vec![dv.clone()]))])),
+            "through-another-struct" => (vec![("Msg".into(), sv(&[("w", "Wrap")])), ("Wrap".into(), sv(&[("d", "EIP712Domain")]))], "Msg", J::obj(vec![("w", J::obj(vec![("d", dv.clone())]))])),
+            _ => (vec![], "EIP712Domain", dv.clone()),
+        };
+        types.insert(0, ("EIP712Domain".into(), dm));
+        let d = Doc { types, primary: primary.into(), domain: dv, message };
+        check_doc(ctx, P, "domain-type-referenced-by-the-message", i, &format!("domain-type={tname},reached-by={g}"), &d);
+    });
     let wf = ctx.classes_matching(|c| c.ends_with(":accepted")); let rj = ctx.classes_matching(|c| c.ends_with(":rejected"));
     ctx.guard_check("well-formed and malformed domains both seen", wf > 0 && rj > 0, format!("{wf} accepting classes, {rj} rejecting classes"));
     crate::hist::histories(ctx, P, "document-histories-c20", "TypedData from JSON and its three digests, a sequence on one fresh thread", crate::hist::td_ops());
